@@ -38,6 +38,18 @@ func Install(z Zone) {
 	}
 }
 
+// Set replaces the addresses of one name in the installed zone.
+func Set(name string, addrs []string) {
+	mu.Lock()
+	defer mu.Unlock()
+	z := Zone{}
+	for k, v := range zone {
+		z[k] = v
+	}
+	z[strings.ToLower(name)] = addrs
+	zone = z
+}
+
 // Queries returns how often name was asked for the given type ("A"/"AAAA") and resets nothing.
 func Queries(name, typ string) int {
 	mu.Lock()
